@@ -20,6 +20,7 @@ EXPLANATION = (
     "the Rust parser; (5) parser._parse / _normalize rebuild the parsed value field by field, exact=True returns "
     "it unchanged, both arms of the back-end switch bind the same names. NOT decided: the regex / recursive "
     "descent grammar as a whole, rejection of impossible dates (delegated to datetime)."
+    " Also: the compiled parser tests the two date/time separators 'T' and ' ' together wherever it tests one, and skips the digits beyond the sixth at every fraction site."
 )
 
 
